@@ -19,6 +19,11 @@ import (
 	"context"
 	"fmt"
 	"io"
+	"net/http"
+	"net/http/httptest"
+	"os"
+	"path/filepath"
+	"regexp"
 	"sort"
 	"strconv"
 	"strings"
@@ -342,6 +347,8 @@ type world struct {
 	idxKV  sorted.KeyValue // index family
 	tap    *tapStats
 	qMem   sorted.KeyValue
+	live   *liveKV // qMem when the queue is a file-backed KV that is closed and re-opened at every restart
+	dir    string  // scratch directory of the file-backed queue
 	eff    *effLog
 	incs   []*incarnation
 	bmu    sync.Mutex
@@ -365,8 +372,11 @@ type incarnation struct {
 	queue    *recKV
 	sh       *server.SyncHandler
 	err      error // constructor error
-	frozenCh chan struct{}
-	frozen1  sync.Once
+	// harnessErr: err is not the handler's refusal but a failure of the harness' own set-up
+	harnessErr bool
+	starter    int // id of the goroutine that ran the constructor (parent of the handler's goroutines)
+	frozenCh   chan struct{}
+	frozen1    sync.Once
 }
 
 func newWorld(sc *scenario) (*world, error) {
@@ -380,8 +390,163 @@ func newWorld(sc *scenario) (*world, error) {
 	} else {
 		w.dstMem = &memory.Storage{}
 	}
+	if sc.Queue != "" && sc.Queue != "memory" {
+		w.dir = ev.Scratch("c19-queue")
+		ext := map[string]string{"leveldb": "leveldb", "kv": "kv", "sqlite": "sqlite"}[sc.Queue]
+		if ext == "" {
+			return nil, fmt.Errorf("unknown queue type %q", sc.Queue)
+		}
+		w.live = &liveKV{conf: jsonconfig.Obj{"type": sc.Queue, "file": filepath.Join(w.dir, "queue."+ext)}}
+		if err := w.live.reopen(); err != nil {
+			return nil, err
+		}
+		w.qMem = w.live
+	}
 	return w, nil
 }
+
+// close releases what the world holds outside the Go heap, and empties the big stores
+// (every storage that ever received a blob stays reachable through the blob hub registry).
+func (w *world) close() {
+	if w.live != nil {
+		w.live.shut()
+		os.RemoveAll(w.dir)
+	}
+	if w.sc.big {
+		for _, m := range []*memory.Storage{w.srcMem, w.dstMem} {
+			if m == nil {
+				continue
+			}
+			var refs []blob.Ref
+			for _, s := range m.BlobrefStrings() {
+				refs = append(refs, blob.MustParse(s))
+			}
+			m.RemoveBlobs(ctxbg, refs)
+		}
+		w.bmu.Lock()
+		w.blobs = map[string]sto.Blob{}
+		w.bmu.Unlock()
+	}
+}
+
+// liveKV is a file-backed queue that is closed and opened again (through
+// sorted.NewKeyValueMaybeWipe, like the handler's own queue) at every restart.
+// Calls of a crashed incarnation that are still inside the KV finish first.
+type liveKV struct {
+	mu      sync.RWMutex
+	kv      sorted.KeyValue
+	conf    jsonconfig.Obj
+	reopens int
+}
+
+func (l *liveKV) reopen() error {
+	l.mu.Lock()
+	defer l.mu.Unlock()
+	if l.kv != nil {
+		if err := l.kv.Close(); err != nil {
+			return fmt.Errorf("closing the queue: %w", err)
+		}
+		l.kv = nil
+		l.reopens++
+	}
+	conf := jsonconfig.Obj{}
+	for k, v := range l.conf {
+		conf[k] = v
+	}
+	kv, err := sorted.NewKeyValueMaybeWipe(conf)
+	if err != nil {
+		return fmt.Errorf("opening the queue %v: %w", l.conf, err)
+	}
+	l.kv = kv
+	return nil
+}
+
+func (l *liveKV) shut() {
+	l.mu.Lock()
+	defer l.mu.Unlock()
+	if l.kv != nil {
+		l.kv.Close()
+		l.kv = nil
+	}
+}
+
+var errQueueClosed = fmt.Errorf("c19: queue file is closed")
+
+func (l *liveKV) Get(key string) (string, error) {
+	l.mu.RLock()
+	defer l.mu.RUnlock()
+	if l.kv == nil {
+		return "", errQueueClosed
+	}
+	return l.kv.Get(key)
+}
+func (l *liveKV) Set(key, value string) error {
+	l.mu.RLock()
+	defer l.mu.RUnlock()
+	if l.kv == nil {
+		return errQueueClosed
+	}
+	return l.kv.Set(key, value)
+}
+func (l *liveKV) Delete(key string) error {
+	l.mu.RLock()
+	defer l.mu.RUnlock()
+	if l.kv == nil {
+		return errQueueClosed
+	}
+	return l.kv.Delete(key)
+}
+func (l *liveKV) BeginBatch() sorted.BatchMutation {
+	l.mu.RLock()
+	defer l.mu.RUnlock()
+	return l.kv.BeginBatch()
+}
+func (l *liveKV) CommitBatch(b sorted.BatchMutation) error {
+	l.mu.RLock()
+	defer l.mu.RUnlock()
+	if l.kv == nil {
+		return errQueueClosed
+	}
+	return l.kv.CommitBatch(b)
+}
+func (l *liveKV) Close() error { return nil }
+
+// Find reads the range under the lock and serves it from memory, so that an
+// iterator that is never closed cannot block a restart.
+func (l *liveKV) Find(start, end string) sorted.Iterator {
+	l.mu.RLock()
+	defer l.mu.RUnlock()
+	if l.kv == nil {
+		return &sliceIter{err: errQueueClosed}
+	}
+	it := l.kv.Find(start, end)
+	si := &sliceIter{i: -1}
+	for it.Next() {
+		si.k = append(si.k, it.Key())
+		si.v = append(si.v, it.Value())
+	}
+	si.err = it.Close()
+	return si
+}
+
+type sliceIter struct {
+	k, v []string
+	i    int
+	err  error
+}
+
+func (s *sliceIter) Next() bool {
+	if s.err != nil || s.i+1 >= len(s.k) {
+		return false
+	}
+	s.i++
+	return true
+}
+func (s *sliceIter) Key() string        { return s.k[s.i] }
+func (s *sliceIter) KeyBytes() []byte   { return []byte(s.k[s.i]) }
+func (s *sliceIter) Value() string      { return s.v[s.i] }
+func (s *sliceIter) ValueBytes() []byte { return []byte(s.v[s.i]) }
+func (s *sliceIter) Close() error       { return s.err }
 
 func modeOf(s string) inject.Mode {
 	switch s {
@@ -407,6 +572,14 @@ func (w *world) start(spec incSpec) *incarnation {
 	inc := &incarnation{n: len(w.incs), spec: spec, freeze: inject.NewPlan(),
 		fault: map[string]*inject.Plan{}, frozenCh: make(chan struct{})}
 	w.incs = append(w.incs, inc)
+	if w.live != nil && inc.n > 0 {
+		// the process "restarts": the queue file is closed and opened again
+		if err := w.live.reopen(); err != nil {
+			inc.err = err
+			inc.harnessErr = true
+			return inc
+		}
+	}
 	inc.freeze.Yield = func(c inject.Call) {
 		if c.Mode == "freeze" {
 			inc.frozen1.Do(func() { close(inc.frozenCh) })
@@ -432,6 +605,18 @@ func (w *world) start(spec incSpec) *incarnation {
 		}
 		for _, j := range f.Nth {
 			p.FaultAt(int64(j), modeOf(f.Mode))
+		}
+	}
+	if spec.HoldDst > 0 {
+		// the first HoldDst destination writes wait at a gate (opened by execute)
+		p := inc.fault["dst"]
+		if p == nil {
+			p = inject.NewPlan()
+			p.Match = func(_, o string) bool { return o == "ReceiveBlob" }
+			inc.fault["dst"] = p
+		}
+		for j := 0; j < spec.HoldDst; j++ {
+			p.FaultAt(int64(j), inject.Gate)
 		}
 	}
 	plan := func(layer string) *inject.Plan {
@@ -492,7 +677,23 @@ func (w *world) start(spec incSpec) *incarnation {
 	if spec.Validate {
 		conf["validateOnStart"] = true
 	}
-	h, err := blobserver.CreateHandler("sync", ld, conf)
+	if spec.FullSync {
+		conf["fullSyncOnStart"] = true
+	}
+	// The constructor runs in a goroutine of its own: the goroutines it starts name it as
+	// their creator, which is how a goroutine dump is attributed to this incarnation.
+	type built struct {
+		h   http.Handler
+		err error
+	}
+	bc := make(chan built, 1)
+	go func() {
+		inc.starter = goroutineID()
+		h, err := blobserver.CreateHandler("sync", ld, conf)
+		bc <- built{h, err}
+	}()
+	b := <-bc
+	h, err := b.h, b.err
 	if err != nil {
 		inc.err = err
 		return inc
@@ -570,6 +771,33 @@ func faultKind(layer, op, mode string) string {
 // idleWait waits for one IdleWait return of the incarnation's handler.
 func (inc *incarnation) idleWait(watchdog time.Duration) bool {
 	return ev.WithTimeout(watchdog, inc.sh.IdleWait)
+}
+
+// validationProgress reads "Shards processed: a/b" from the handler's status page.
+var reShards = regexp.MustCompile(`Shards processed: (\d+)/(\d+)`)
+
+func (inc *incarnation) validationProgress() (done, total int) {
+	rw := httptest.NewRecorder()
+	inc.sh.ServeHTTP(rw, httptest.NewRequest("GET", "/sync/", nil))
+	m := reShards.FindStringSubmatch(rw.Body.String())
+	if m == nil {
+		return 0, 0
+	}
+	done, _ = strconv.Atoi(m[1])
+	total, _ = strconv.Atoi(m[2])
+	return
+}
+
+// durableDst is the destination below every wrapper (for pre-populating it).
+func (w *world) durableDst() (blobserver.BlobReceiver, error) {
+	if w.sc.Dest == "index" {
+		x, err := hw.NewIdx(w.idxKV, w.srcMem, false)
+		if err != nil {
+			return nil, err
+		}
+		return x.Index, nil
+	}
+	return w.dstMem, nil
 }
 
 // ------------------------------------------------------------------ durable-state views
